@@ -1158,6 +1158,11 @@ class Sequence:
         returns a tuple of (dmax, seqDeltaMax)
         """
 
+        # If dmax is known (cached or carried over) but the permutant was never
+        # recorded, the search has to be run again to find it
+        if self.dmax != -1 and returnSeqDeltaMax and self.seqDeltaMax is None:
+          self.dmax = -1
+
         # If this has been computed already, then return it
         if self.dmax != -1 and not returnSeqDeltaMax:
           return self.dmax
